@@ -2,6 +2,7 @@ package main
 
 import (
 	"fmt"
+	"go/constant"
 	"go/token"
 	"go/types"
 	"sort"
@@ -21,6 +22,7 @@ func init() {
 			"C23.R1 MPT: encrypt before serialise at every writeObject / writeStreamObject site",
 			"C23.R2 TABLE: encryptDeepObject covers all string-bearing kinds; call-site argument types are handled kinds",
 			"C23.R3 exempt writers table",
+			"C23.R6 TABLE: the only dictionaries whose /Contents stays unencrypted are those with FT/Type Sig or DocTimeStamp",
 			"C23.R5 contract: encryptDeepObject stores encrypted elements into the container it was handed (callers discard its result)",
 			"C23.R4 once: in-place encrypting writers are reached only for objects without a write offset (an object encrypted twice with RC4 is plaintext again)",
 		},
@@ -169,6 +171,8 @@ func sameObjectValue(a, b ssa.Value) bool {
 func runC23(c *Ctx) {
 	p, r := c.P, c.R
 	r.MinInst["C23.R5"] = 1
+	r.MinInst["C23.R6"] = 1
+	checkSignatureExemption(c)
 	checkInPlaceContract(c)
 	r.MinInst["C23.R1"] = 12
 	r.MinInst["C23.R2"] = 6
@@ -868,5 +872,147 @@ func checkInPlaceContract(c *Ctx) {
 		if _, arr := discarded["Array"]; arr {
 			r.Bad("C23.R5", FuncID(enc), "element store", p.Pos(enc.Pos()), "a caller ("+discarded["Array"]+") passes an array and discards the result, but encryptDeepObject stores no encrypted element back into a container: the strings are never replaced")
 		}
+	}
+}
+
+// ---------------- C23.R6 (round 4 seed C23-H): what may stay unencrypted in a dictionary ----------------
+
+// checkSignatureExemption: encryptDict leaves exactly one thing in clear text — the /Contents of a signature or
+// document-time-stamp dictionary (its bytes are covered by the ByteRange digest). The flag that switches the
+// exemption on must be true only behind a comparison of the dictionary's FT/Type name with "Sig" or
+// "DocTimeStamp": every source of the flag (through φ and through the results of a helper it is computed by) is the
+// constant false, or the constant true in a block dominated by such a comparison's true edge. A flag that can also
+// come from the mere presence of another key (ByteRange) lets any dictionary carrying that key keep its /Contents
+// string in plaintext.
+func checkSignatureExemption(c *Ctx) {
+	p, r := c.P, c.R
+	const fid = "pkg/pdfcpu.encryptDict"
+	fn := p.Func(fid)
+	if fn == nil {
+		r.Bad("C23.R6", fid, "anchor", "", "UNRESOLVED-ANCHOR")
+		return
+	}
+	isSigCompare := func(v ssa.Value) bool {
+		bo, ok := v.(*ssa.BinOp)
+		if !ok || bo.Op != token.EQL {
+			return false
+		}
+		for _, side := range []ssa.Value{bo.X, bo.Y} {
+			if s, ok := constString(side); ok && (s == "Sig" || s == "DocTimeStamp") {
+				return true
+			}
+		}
+		return false
+	}
+	var badWhy string
+	var judge func(v ssa.Value, at *ssa.BasicBlock, fnOf *ssa.Function, d int)
+	judge = func(v ssa.Value, at *ssa.BasicBlock, fnOf *ssa.Function, d int) {
+		if d > 6 || badWhy != "" {
+			return
+		}
+		switch x := v.(type) {
+		case *ssa.Const:
+			if x.Value == nil || x.Value.Kind() != constant.Bool || !constant.BoolVal(x.Value) {
+				return // false
+			}
+			// true: 'at' must be behind a Sig/DocTimeStamp comparison
+			var behind func(b *ssa.BasicBlock, depth int) bool
+			behind = func(b *ssa.BasicBlock, depth int) bool {
+				if b == nil || depth > 4 {
+					return false
+				}
+				for _, x := range fnOf.Blocks {
+					if len(x.Instrs) == 0 {
+						continue
+					}
+					if ifi, ok := x.Instrs[len(x.Instrs)-1].(*ssa.If); ok && isSigCompare(ifi.Cond) && edgeDominates(Edge{x, 0}, b) {
+						return true
+					}
+				}
+				// a join of several comparisons (a == "Sig" || a == "DocTimeStamp"): every incoming edge is such a true edge
+				if len(b.Preds) == 0 {
+					return false
+				}
+				for _, pb := range b.Preds {
+					okEdge := false
+					if len(pb.Instrs) > 0 {
+						if ifi, ok := pb.Instrs[len(pb.Instrs)-1].(*ssa.If); ok && isSigCompare(ifi.Cond) && pb.Succs[0] == b {
+							okEdge = true
+						}
+					}
+					if !okEdge && !behind(pb, depth+1) {
+						return false
+					}
+				}
+				return true
+			}
+			okAt := behind(at, 0)
+			if !okAt {
+				badWhy = "the flag is set true in " + fnOf.Name() + " on a path that is not behind a comparison of the FT/Type name with \"Sig\" or \"DocTimeStamp\""
+			}
+		case *ssa.Phi:
+			for ei, e := range x.Edges {
+				judge(e, x.Block().Preds[ei], fnOf, d+1)
+			}
+		case *ssa.BinOp:
+			if isSigCompare(x) {
+				return
+			}
+			if x.Op == token.LOR || x.Op == token.OR {
+				judge(x.X, at, fnOf, d+1)
+				judge(x.Y, at, fnOf, d+1)
+				return
+			}
+			badWhy = "the flag is computed by " + exprName(x)
+		case *ssa.Call:
+			callee := staticCallee(x)
+			if callee == nil || len(callee.Blocks) == 0 {
+				badWhy = "the flag is the result of an unresolved call"
+				return
+			}
+			for _, ret := range returnsOf(callee) {
+				if len(ret.Results) != 1 {
+					badWhy = "the flag comes from a multi-result helper"
+					return
+				}
+				judge(ret.Results[0], ret.Block(), callee, d+1)
+			}
+		case *ssa.Extract:
+			badWhy = "the flag can be the ok of a lookup / type assertion (" + exprName(x.Tuple) + "): the presence of a key decides, not the dictionary's kind"
+		default:
+			badWhy = "the flag comes from " + exprName(v)
+		}
+	}
+	n := 0
+	for _, l := range naturalLoops(fn) {
+		for b := range l.blocks {
+			if len(b.Instrs) == 0 {
+				continue
+			}
+			ifi, ok := b.Instrs[len(b.Instrs)-1].(*ssa.If)
+			if !ok {
+				continue
+			}
+			if _, isCmp := ifi.Cond.(*ssa.BinOp); isCmp {
+				continue
+			}
+			if bt, ok := ifi.Cond.Type().Underlying().(*types.Basic); !ok || bt.Kind() != types.Bool {
+				continue
+			}
+			if _, isExtract := ifi.Cond.(*ssa.Extract); isExtract {
+				continue // the range loop's own ok
+			}
+			n++
+			badWhy = ""
+			judge(ifi.Cond, b, fn, 0)
+			if badWhy != "" {
+				r.Bad("C23.R6", fid, "signature exemption flag", p.Pos(ifi.Pos()), badWhy+": a dictionary that is not a signature can keep the string under /Contents unencrypted in the written file")
+			} else {
+				r.OK("C23.R6", fid, "signature exemption flag", p.Pos(ifi.Pos()), "true only behind FT/Type == Sig or DocTimeStamp", true)
+			}
+		}
+	}
+	if n == 0 {
+		r.Bad("C23.R6", fid, "signature exemption flag", p.Pos(fn.Pos()), "UNDECIDED: no bool flag decides inside the entry loop of encryptDict")
 	}
 }
